@@ -1024,3 +1024,18 @@ for _h, _nm in enumerate(_HIST):
       symbolic="three state values", assumes=["the history's requests succeed where the history says so"],
       bounds="3 peers, paths 'x' and 'y', history '%s'" % _nm,
       **dict({k: v for k, v in _scn_guard.items() if k != "harness"}, unwind=22))
+
+# the same routing scenarios with a method and call (arguments relayed as the routed message's params)
+for _oid in ("C03.reply_result", "C03.reply_error", "C14.timeout", "C03.owner_leaves", "C03.bystander_with_request", "C05.caller_leaves",
+             "C03.route_fault_owner_send_fails", "C03.route_fault_timer_start_fails", "C03.limit", "C03.reply_to_request_without_id_result"):
+    _src = [o for o in OBLIGATIONS if o["id"] == _oid][0]
+    _new = dict(_src, id=_oid + "_call", defines=list(_src.get("defines", [])) + ["USE_CALL=1"], props=list(_src["props"]),
+                bounds=_src["bounds"].replace("A set", "A call").replace("C set", "C call").replace("add 's'", "add method 's'") + " (method + call)")
+    OBLIGATIONS.append(_new)
+
+# the rule is applied to elements added AFTER the fetch as well
+for _oid in ("C16.rule_equals_a", "C16.rule_equals_A", "C16.rule_equals_ci_A", "C16.rule_contains_all_of_a", "C16.rule_contains_all_of_z", "C16.rule_equals_not_and_contains_z",
+             "C16.rule_equals_not_and_contains_a", "C16.rule_ends_with_ci_A", "C16.rule_ends_with_ci_z", "C16.rule_starts_with_ci_A", "C16.rule_contains_ci_A"):
+    _src = [o for o in OBLIGATIONS if o["id"] == _oid][0]
+    OBLIGATIONS.append(dict(_src, id=_oid.replace("C16.rule_", "C16.rule_fetch_first_"), defines=list(_src.get("defines", [])) + ["FETCH_FIRST=1"], props=list(_src["props"]),
+                            bounds=_src["bounds"].replace("A add 'ab'; B fetch", "B fetch").replace("; A change 'ab'", "; A add 'ab'; A change 'ab'")))
